@@ -26,6 +26,7 @@ EXPLANATION = (
     "be unreachable except through sites dominated by a test of a flag that stop() sets first; a flag written by "
     "stop() and read nowhere is reported (contradiction)."
     ' Also: the thresholds and the period hold what the constructor was given - 0 / None stay `off` (R6).'
+    " The canceller searches the queue whatever the in-flight handle says."
 )
 SHARED = [('C01', ['R7'], 'stopping the producer fails every outstanding send'), ('C09', ['R1'], 'a threshold met while a batch is in flight takes effect the moment that batch resolves'), ('C01', ['R3'], 'cancelling one send only detaches that caller')]
 ASSUMPTIONS = [
